@@ -503,6 +503,19 @@ def pol_collide(ctx):
         d, v = best[int(rng.integers(len(best)))]
         for i, a in v:
             act[i] = a
+        # chain: a further agent steps into the cell one of the contenders is about to (fail to) leave - an illegal
+        # move (occupied cell), so the episode no longer counts as mask-respecting
+        if rng.random() < 0.5:
+            movers = {i for i, _ in v}
+            for j in range(n):
+                if j in movers:
+                    continue
+                for a in (1, 2, 3, 4):
+                    t = (int(apos[j][0]) + MOVES[a][0], int(apos[j][1]) + MOVES[a][1])
+                    if any(t == (int(apos[i][0]), int(apos[i][1])) for i in movers):
+                        act[j] = a
+                        ctx["legal_only"] = False
+                        break
         return act.astype(np.int32)
     centre = apos.mean(axis=0)
     for i in range(n):
